@@ -93,3 +93,33 @@ Theorem C05_space_counters_are_the_source : forall s l n,
   GenObj.vd_remove_from_space_size s l n = remove_from_space_size s l n.
 Proof. intros s l n. split; [apply SpaceGenProofs.add_to_space_size_is_the_source | apply SpaceGenProofs.remove_from_space_size_is_the_source]. Qed.
 End VolDescStatements.
+
+(* ---- re-mastering is a fixpoint, for EVERY well-formed tree (plain ISO9660 directory area): Model/Parse.v + Model/Master.v.  Mastering the tree of the opened object reproduces the directory area byte for byte with the same layout, and write_fp of the opened, unedited object (no reshuffle) gives the image back: *)
+From PV.Base Require Prim ListX.
+From PV.Gen Require GenConst GenFun.
+From PV.Model Require Codec Pack PathTable Names Master Parse.
+From PV.Proofs Require MasterPack MasterImage MasterBfs MasterWf MasterDir MasterChecker MasterProofs ParseScan ParseTrack ParseRecord ParseDir ParseDirAll ParseWalk ParseTree ParseProofs ParseShare ParseShareWalk ParseWrite ParseExamples.
+Section ParseStatementsC05.
+Import PV.Base.Prim PV.Base.ListX PV.Gen.GenConst PV.Gen.GenFun PV.Model.Codec PV.Model.Pack PV.Model.PathTable PV.Model.Names PV.Model.Master PV.Model.Parse PV.Proofs.MasterPack PV.Proofs.MasterImage PV.Proofs.MasterBfs PV.Proofs.MasterWf PV.Proofs.MasterDir PV.Proofs.MasterChecker PV.Proofs.MasterProofs PV.Proofs.ParseScan PV.Proofs.ParseTrack PV.Proofs.ParseRecord PV.Proofs.ParseDir PV.Proofs.ParseDirAll PV.Proofs.ParseWalk PV.Proofs.ParseTree PV.Proofs.ParseProofs PV.Proofs.ParseShare PV.Proofs.ParseShareWalk PV.Proofs.ParseWrite PV.Proofs.ParseExamples.
+Local Open Scope Z_scope.
+Theorem C05_remaster_fixpoint_every_tree dt t img F isz g : length dt = 7%nat -> ps_tree_ok t = true ->
+  master dt t = Some img -> (tsize (ms_dtree t) < F)%nat -> ms_layout_end t * BS <= isz ->
+  parse F img (ps_ptr_exts t) isz (root_extent t) (root_len t) = POk g ->
+  tree_of g (root_len t) = t /\
+  master dt (tree_of g (root_len t)) = Some img /\
+  ms_layout_pairs (tree_of g (root_len t)) = ms_layout_pairs t /\
+  root_extent (tree_of g (root_len t)) = root_extent t /\
+  ms_layout_end (tree_of g (root_len t)) = ms_layout_end t.
+Proof. first [exact (@remaster_fixpoint) | apply (@remaster_fixpoint) | intros; eapply (@remaster_fixpoint); eassumption]. Qed.
+
+Theorem C05_writer_on_the_writers_graph dt t : length dt = 7%nat -> ps_tree_ok t = true ->
+  ps_write (graph_of dt t) (root_extent t) (root_len t) = master dt t.
+Proof. first [exact (@ps_write_graph_of) | apply (@ps_write_graph_of) | intros; eapply (@ps_write_graph_of); eassumption]. Qed.
+
+Theorem C05_reopen_write_fixpoint_every_tree dt t img F isz g : length dt = 7%nat -> ps_tree_ok t = true ->
+  master dt t = Some img -> (tsize (ms_dtree t) < F)%nat -> ms_layout_end t * BS <= isz ->
+  parse F img (ps_ptr_exts t) isz (root_extent t) (root_len t) = POk g ->
+  ps_write g (root_extent t) (root_len t) = Some img.
+Proof. first [exact (@reopen_write_fixpoint) | apply (@reopen_write_fixpoint) | intros; eapply (@reopen_write_fixpoint); eassumption]. Qed.
+
+End ParseStatementsC05.
